@@ -837,6 +837,17 @@ func (c *FuncCtx) needVariant(li *loopInfo, dec []*Clause) {
 
 func (c *FuncCtx) newLoopInfo(n ast.Node, pos token.Pos) *loopInfo {
 	li := &loopInfo{ord: c.loopOrd[n], node: n, pos: pos, extra: map[string]*Val{}}
+	// names bound by "let" (pre-state values) are visible to invariants;
+	// parameter names denote the current values there
+	if c.contract != nil {
+		for _, cl := range c.contract.clauses("let") {
+			for _, nm := range splitTop(cl.Name, ',') {
+				if v, ok := c.specEnv[nm]; ok {
+					li.extra[nm] = v
+				}
+			}
+		}
+	}
 	li.modVars, li.modHeap = c.eng.loopMods(c, n)
 	return li
 }
@@ -847,83 +858,128 @@ func (c *FuncCtx) newLoopInfo(n ast.Node, pos token.Pos) *loopInfo {
 func (c *FuncCtx) execRange(st *State, x *ast.RangeStmt) []outcome {
 	coll := c.eval(st, x.X)
 	li := c.newLoopInfo(x, x.Pos())
-	inv, dec := c.loopSpec(li.ord)
+	inv, _ := c.loopSpec(li.ord)
 	idxName := fmt.Sprintf("idx_%d", li.ord)
+	cntName := fmt.Sprintf("cnt_%d", li.ord)
 	isStr := coll.Sort == "String"
 	isSlice := strings.HasPrefix(coll.Sort, "Sl_")
 	if !isStr && !isSlice {
 		if strings.HasPrefix(coll.Sort, "Mp_") {
-			return c.execRangeMap(st, x, coll, li, inv, dec)
+			return c.execRangeMap(st, x, coll, li, inv, nil)
 		}
 		limitf("%s: range over %s", c.eng.posStr(x.Pos()), coll.T)
 	}
 	var length string
 	if isStr {
 		length = app("str.len", coll.S)
+		// rune sequence of the string: runeOff(s)[n] is the byte offset of
+		// rune n, runeSeq(s)[n] its value, nrunes(s) their number
+		c.eng.declareUF("runeOff", "(declare-fun runeOff (String) (Array Int Int))")
+		c.eng.declareUF("runeSeq", "(declare-fun runeSeq (String) (Array Int Int))")
+		c.eng.declareUF("nrunes", "(declare-fun nrunes (String) Int)")
 	} else {
 		length = acc("len_"+coll.Sort, coll.S)
 	}
-	li.extra[idxName] = &Val{T: tInt, S: "0", Sort: "Int"}
 	li.extra[fmt.Sprintf("coll_%d", li.ord)] = coll
-	c.checkInv(st, li, inv, "init")
-	h := st.clone()
-	c.havocLoop(h, li)
-	k := c.fresh(idxName, "Int")
-	h.assume(mkAnd(app("<=", "0", k), app("<=", k, length)))
-	li.extra[idxName] = &Val{T: tInt, S: k, Sort: "Int"}
-	if isStr {
-		// the position is always at a rune boundary as produced by decoding;
-		// nothing more is assumed about it.
+	withPos := func(k, cnt string) *loopInfo {
+		li2 := *li
+		li2.extra = map[string]*Val{}
+		for kk, vv := range li.extra {
+			li2.extra[kk] = vv
+		}
+		li2.extra[idxName] = &Val{T: tInt, S: k, Sort: "Int"}
+		li2.extra[cntName] = &Val{T: tInt, S: cnt, Sort: "Int"}
+		return &li2
 	}
-	c.assumeInv(h, li, inv)
+	// iterate runs the body once from state b at position (k, cnt) and hands
+	// every state that reaches the end of the body to cont with the next position
 	var outs []outcome
-	// exit
-	e := h.clone()
-	e.assume(mkEq(k, length)) // 0 <= k <= length and not k < length
-	outs = append(outs, outcome{oNext, e})
-	// iteration
-	b := h.clone()
-	b.assume(app("<", k, length))
-	var next string
-	bindKV := func(key, val *Val) {
-		if x.Key != nil {
-			c.bindRangeVar(b, x.Key, key, x.Tok)
-		}
-		if x.Value != nil {
-			c.bindRangeVar(b, x.Value, val, x.Tok)
-		}
-	}
-	if isStr {
-		r, w := c.decodeRune(b, app("str.substr", coll.S, k, mkSub(length, k)))
-		bindKV(&Val{T: tInt, S: k, Sort: "Int"}, r)
-		next = mkAdd(k, w.S)
-	} else {
-		el := c.val(mkSel(acc("base_"+coll.Sort, coll.S), mkAdd(acc("off_"+coll.Sort, coll.S), k)), under(coll.T).(*types.Slice).Elem())
-		b.assume(c.eng.typeFacts(el.S, el.T))
-		c.wfElem(b, el)
-		bindKV(&Val{T: tInt, S: k, Sort: "Int"}, el)
-		next = mkAdd(k, "1")
-	}
-	// implicit variant: length - position
-	v0 := []string{mkSub(length, k)}
-	for _, o := range c.execBlock(b, x.Body.List) {
-		switch o.kind {
-		case oNext, oContinue:
-			li2 := *li
-			li2.extra = map[string]*Val{}
-			for kk, vv := range li.extra {
-				li2.extra[kk] = vv
+	iterate := func(b *State, k, cnt string, cont func(s *State, nk, ncnt string)) {
+		var next, ncnt string
+		bindKV := func(key, val *Val) {
+			if x.Key != nil {
+				c.bindRangeVar(b, x.Key, key, x.Tok)
 			}
-			li2.extra[idxName] = &Val{T: tInt, S: next, Sort: "Int"}
-			c.checkInv(o.st, &li2, inv, "step")
-			_ = v0
-		case oBreak:
-			outs = append(outs, outcome{oNext, o.st})
-		case oReturn:
-			outs = append(outs, o)
+			if x.Value != nil {
+				c.bindRangeVar(b, x.Value, val, x.Tok)
+			}
+		}
+		if isStr {
+			r, w := c.decodeRune(b, app("str.substr", coll.S, k, mkSub(length, k)))
+			bindKV(&Val{T: tInt, S: k, Sort: "Int"}, r)
+			next = mkAdd(k, w.S)
+			ncnt = mkAdd(cnt, "1")
+			b.assume(mkEq(mkSel(app("runeOff", coll.S), cnt), k))
+			b.assume(mkEq(mkSel(app("runeSeq", coll.S), cnt), r.S))
+			b.assume(app("<", cnt, app("nrunes", coll.S)))
+		} else {
+			el := c.val(mkSel(acc("base_"+coll.Sort, coll.S), mkAdd(acc("off_"+coll.Sort, coll.S), k)), under(coll.T).(*types.Slice).Elem())
+			b.assume(c.eng.typeFacts(el.S, el.T))
+			c.wfElem(b, el)
+			bindKV(&Val{T: tInt, S: k, Sort: "Int"}, el)
+			next = mkAdd(k, "1")
+			ncnt = next
+		}
+		for _, o := range c.execBlock(b, x.Body.List) {
+			switch o.kind {
+			case oNext, oContinue:
+				cont(o.st, next, ncnt)
+			case oBreak:
+				outs = append(outs, outcome{oNext, o.st})
+			case oReturn:
+				outs = append(outs, o)
+			}
 		}
 	}
-	_ = dec
+	exitFacts := func(e *State, k, cnt string) {
+		e.assume(mkEq(k, length)) // 0 <= k <= length and not k < length
+		if isStr {
+			e.assume(mkEq(app("nrunes", coll.S), cnt))
+		}
+	}
+	// generic: the invariant-based treatment of the loop from position (k0, cnt0)
+	generic := func(st *State, k0, cnt0 string) {
+		c.checkInv(st, withPos(k0, cnt0), inv, "init")
+		h := st.clone()
+		c.havocLoop(h, li)
+		k := c.fresh(idxName, "Int")
+		h.assume(mkAnd(app("<=", k0, k), app("<=", k, length)))
+		cnt := k
+		if isStr {
+			cnt = c.fresh(cntName, "Int")
+			h.assume(mkAnd(app("<=", cnt0, cnt), app("<=", cnt, k)))
+			h.assume(mkEq(mkEq(cnt, "0"), mkEq(k, "0")))
+		}
+		c.assumeInv(h, withPos(k, cnt), inv)
+		e := h.clone()
+		exitFacts(e, k, cnt)
+		outs = append(outs, outcome{oNext, e})
+		b := h.clone()
+		b.assume(app("<", k, length))
+		iterate(b, k, cnt, func(s *State, nk, ncnt string) {
+			c.checkInv(s, withPos(nk, ncnt), inv, "step")
+		})
+	}
+	if c.contract != nil && c.contract.peels(li.ord) {
+		// peel the first iteration: executions with zero or one iteration are
+		// followed exactly, the invariant describes the rest
+		z := st.clone()
+		z.assume(mkEq(length, "0"))
+		exitFacts(z, "0", "0")
+		outs = append(outs, outcome{oNext, z})
+		b := st.clone()
+		b.assume(app("<", "0", length))
+		iterate(b, "0", "0", func(s *State, nk, ncnt string) {
+			e := s.clone()
+			exitFacts(e, nk, ncnt)
+			outs = append(outs, outcome{oNext, e})
+			m := s.clone()
+			m.assume(app("<", nk, length))
+			generic(m, nk, ncnt)
+		})
+		return outs
+	}
+	generic(st, "0", "0")
 	return outs
 }
 
